@@ -164,9 +164,14 @@ def regenerate_gen():
     return py2coq.regenerate(REPO, os.path.join(COQ, "Gen"))
 
 
-def coq_make(targets, timeout=3000, jobs=16):
-    """make the given .vo targets (relative to coq/). Returns (ok, log)."""
+def coq_make(targets, timeout=3000, jobs=16, regenerate=False):
+    """make the given .vo targets (relative to coq/). Returns (ok, log).
+
+    regenerate=True re-runs the translators under the same lock hold, so that a concurrent check
+    working on another source tree (DV_REPO) cannot swap coq/Gen between regeneration and build."""
     with Lock():
+        if regenerate:
+            regenerate_gen()
         refresh_coqproject()
         rc, out = sh("timeout %d make -f Makefile.coq -j%d %s" % (timeout, jobs, " ".join(targets)),
                      cwd=COQ, timeout=timeout + 30)
@@ -505,7 +510,7 @@ def proof_stage(ctx, targets, allow_axioms=(), props_file=None, gen_needed=()):
     if hits:
         ctx.notes.append("forbidden constructs: " + "; ".join(hits[:10]))
         ok_all = False
-    ok, log = coq_make(targets)
+    ok, log = coq_make(targets, regenerate=True)
     ctx.obligation("make " + " ".join(targets), ok)
     if not ok:
         ctx.notes.append("coq build failed at %s" % failing_file(log))
